@@ -408,6 +408,9 @@ func Check[C any](t *testing.T, check string, n int, gen func(*rapid.T) C, run f
 		fmt.Printf("REPLAY-PASS property=%s check=%s\n", st.id, check)
 		return
 	}
+	if t.Failed() {
+		return // an earlier part of this test already reported a violation
+	}
 	_ = flag.Set("rapid.checks", strconv.Itoa(n))
 	var lastC C
 	var lastF *Failure
@@ -535,3 +538,12 @@ func Rule(s string) { Note("RULE: %s", s) }
 
 // Assume records an assumption / trusted base item for the evidence file.
 func Assume(s string) { Note("ASSUME: %s", s) }
+
+// HarnessBug aborts the process with exit code 3: the harness itself (reference
+// codec, generator) is inconsistent. The driver reports this as inconclusive, never
+// as a violation.
+func HarnessBug(format string, a ...any) {
+	fmt.Printf("HARNESS-BUG: "+format+"\n", a...)
+	flush()
+	os.Exit(3)
+}
